@@ -3,7 +3,9 @@ Driver for C04.  Request line:
   V=<10|20|30|31|120|130|131> T=<tok>,<tok>,...
 tokens: `a<k>.<n>` operand of kind k, `t<n>` type, `o<i>` operator = row i of the generated table of
 that version, `c<0|1>` closer `)` / `]`.
-Answer:  model=<tree|ERR:syntax|ERR:fuel|ERR:unmodelled> spec=<tree|ERR> trig=<finding ids,…|-> rel=<0|1>
+Answer:  model=<tree|ERR:syntax|ERR:fuel|ERR:unmodelled> spec=<tree|ERR> trig=<finding ids,…|-> rel=<0|1> chain=<0|1> src=<code points|->
+  chain : the pieces of the rendered `source` text are separable and the text lexes back to the input's lexemes;
+  src : the `source` text of the model's tree (model of XPathToken.source), as code points
   model : the Pratt model with the generated table;  spec : the EBNF reference parser with the W3C
   level table of the version;  trig : trigger predicates of the known findings that hold for this input;
   rel : the model's tree is a relaxed derivation whose yield is the input (what `pratt_derives` proves), the
@@ -15,6 +17,8 @@ import EPV.Proto
 import EPV.Gen.C04Tables
 import EPV.Lemmas.PrattTables
 import EPV.Lemmas.PrattComplete
+import EPV.Model.PrattLexer
+import EPV.Lemmas.PrattSource
 open EPV.Proto EPV.Syn EPV.Pratt EPV.Gen.C04
 
 def parseTok (s : String) : Option Tok :=
@@ -48,22 +52,43 @@ structure Ver where
   w3c : List Level      -- the W3C level table (the specification)
   impl : List Level     -- the level table the code is proved consistent with
   ep : Bool
+  txt : EPV.Source.TextTbl   -- lexical side: symbol texts, `source` styles, tokenizer classes
 
 def versions : List Ver := [
-  ⟨10, opTable_v10, levels10, levels10impl, false⟩,
-  ⟨20, opTable_v20, levels20, levels20impl, true⟩,
-  ⟨30, opTable_v30, levels30, levels30, true⟩,
-  ⟨31, opTable_v31, levels31, levels31, true⟩,
+  ⟨10, opTable_v10, levels10, levels10impl, false, textTbl_v10⟩,
+  ⟨20, opTable_v20, levels20, levels20impl, true, textTbl_v20⟩,
+  ⟨30, opTable_v30, levels30, levels30, true, textTbl_v30⟩,
+  ⟨31, opTable_v31, levels31, levels31, true, textTbl_v31⟩,
   -- the 2.0+ parsers built with compatibility_mode=True: same grammar, own generated tables
-  ⟨120, opTable_v20c, levels20, levels20impl, true⟩,
-  ⟨130, opTable_v30c, levels30, levels30, true⟩,
-  ⟨131, opTable_v31c, levels31, levels31, true⟩]
+  ⟨120, opTable_v20c, levels20, levels20impl, true, textTbl_v20⟩,
+  ⟨130, opTable_v30c, levels30, levels30, true, textTbl_v30⟩,
+  ⟨131, opTable_v31c, levels31, levels31, true, textTbl_v31⟩]
+
+def lexTables (v : Nat) : Option (EPV.Lexer.Classes × List EPV.Lexer.Alt) :=
+  match v % 100 with
+  | 10 => some (classes_v10, alts_v10)
+  | 20 => some (classes_v20, alts_v20)
+  | 30 => some (classes_v30, alts_v30)
+  | 31 => some (classes_v31, alts_v31)
+  | _ => none
+
+/-- `V=<ver> LEX=<alternative index> S=<code points>`: length matched by that alternative at the start of the text -/
+def answerLex (v : Nat) (fs : List (String × String)) : String :=
+  match lexTables v, nat? (field fs "LEX"), ((field fs "S").splitOn "," |>.filter (· ≠ "")).mapM nat? with
+  | some (C, alts), some i, some cps =>
+    match alts[i]? with
+    | some A => match EPV.Lexer.matchLen C A cps with
+      | some n => s!"len={n}"
+      | none => "len=-"
+    | none => "bad-alt"
+  | _, _, _ => "bad-lex"
 
 def answer (line : String) : String :=
   let fs := fields line
   match nat? (field fs "V") with
   | none => "bad-version"
   | some v =>
+    if (field fs "LEX") ≠ "" then answerLex v fs else
     match versions.find? (·.n == v) with
     | none => "bad-version"
     | some V =>
@@ -92,6 +117,15 @@ def answer (line : String) : String :=
               (!(derivable (gramOf V.impl V.ep (syms V.rows)) 0 t && guardsPass (tableOf V.rows) t) ||
                 (match m with | .ok t' => t' == t | .error _ => false))
           | none => true
-        s!"model={ms} spec={ss} trig={if trig.isEmpty then "-" else ",".intercalate trig} rel={if rel && chk then 1 else 0}"
+        -- textual `source` of the model's tree, and whether its pieces are separable / lex back to the tokens
+        let (srcS, chain) := match m with
+          | .ok t =>
+            let ps := EPV.Source.render V.txt t
+            let text := EPV.Source.textOf ps
+            let ok := EPV.Source.chainOK V.txt ps &&
+              (EPV.Source.lexAll V.txt text.length text == some (toks.flatMap (EPV.Source.tokLex V.txt)))
+            (",".intercalate (text.map toString), ok)
+          | .error _ => ("-", true)
+        s!"model={ms} spec={ss} trig={if trig.isEmpty then "-" else ",".intercalate trig} rel={if rel && chk then 1 else 0} chain={if chain then 1 else 0} src={srcS}"
 
 def main : IO Unit := mainLoop answer
